@@ -40,7 +40,7 @@ func init() {
 			c.Rep.floor("G1", 350)
 			runR_C01(c)
 		},
-		explanation: "Structural necessary conditions of C01 decided statically: (G11) the work list cannot report success before every generator is Done and name lookup answers only under the type comparison; (G1) no generator error is dropped or swallowed; (G8) every plugin is registered once, every deps[...] key is bound and every discovered call reaches Add or the deferred list; (G13) Field.Private agrees with Go's exportedness on every class of first characters and unvendor strips whole vendor path elements only; (Engine R) every accepted abstract run of every plugin emits text that parses and gofmt-s (R1), refers only to holes / universe names / identifiers it declares (R2), uses exactly the imports it requested (R3), marks what it generates (Generating must-pass-through) and, where kinds are determined, type-checks against the documented helper signatures (R4, thorough). Not decided: import-alias collisions, the multi-pass reload loop, _test files, shapes beyond the stated bounds. Added: (R4, every tier) every accepted run of every plugin — also runs whose text repeats but whose holes stand for other types — is type-checked with go/types against declarations built from the path (kinds, exact basic kinds, struct fields incl. a blank first field, defined vs literal types, identities, directional assignability, user methods found by the lookup predicates, documented helper signatures); runs the model cannot express are counted as untyped. (G12) HasUndefined examines whole types; (G14) the finder always continues into the children of a node; (G16) every load includes test files, tolerates errors, and nobody reads a package's Errors list; (R1) no blank field is selected, unsafe casts use the field's own type. Fourth session: FieldStrings interpreted; struct tags containing a percent sign in the input space; mangled twin for type text in format position; alternative basic kinds / untyped nil / slice / channel-direction declarations for whatever a path left open (each alternative a possible input: a type error is a definite compile error for it); (G14) reserved set complete before naming; (G9) canEqual/canCopy/IsComparable tabulated; (G8) every recorded call becomes a call record. Since wave 6: a TypeString result (which registers an import) must reach the output (R3); the cast type that reads a private field of an imported struct is the field's own type or, exactly when that type was established unexported, its Underlying() (G33/R1); blank named results are part of the abstract input space; Generating is asked about the value that was registered; string cuts in helper names are rune-aligned (G15); canEqual asks for Equal methods before licensing == (G9). Engine G analyses the helper-inlined view of the driver (normalise.go; notes in this evidence say what was inlined).",
+		explanation: "Structural necessary conditions of C01 decided statically: (G11) the work list cannot report success before every generator is Done and name lookup answers only under the type comparison; (G1) no generator error is dropped or swallowed; (G8) every plugin is registered once, every deps[...] key is bound and every discovered call reaches Add or the deferred list; (G13) Field.Private agrees with Go's exportedness on every class of first characters and unvendor strips whole vendor path elements only; (Engine R) every accepted abstract run of every plugin emits text that parses and gofmt-s (R1), refers only to holes / universe names / identifiers it declares (R2), uses exactly the imports it requested (R3), marks what it generates (Generating must-pass-through) and, where kinds are determined, type-checks against the documented helper signatures (R4, thorough). Not decided: import-alias collisions, the multi-pass reload loop, _test files, shapes beyond the stated bounds. Added: (R4, every tier) every accepted run of every plugin — also runs whose text repeats but whose holes stand for other types — is type-checked with go/types against declarations built from the path (kinds, exact basic kinds, struct fields incl. a blank first field, defined vs literal types, identities, directional assignability, user methods found by the lookup predicates, documented helper signatures); runs the model cannot express are counted as untyped. (G12) HasUndefined examines whole types; (G14) the finder always continues into the children of a node; (G16) every load includes test files, tolerates errors, and nobody reads a package's Errors list; (R1) no blank field is selected, unsafe casts use the field's own type. Fourth session: FieldStrings interpreted; struct tags containing a percent sign in the input space; mangled twin for type text in format position; alternative basic kinds / untyped nil / slice / channel-direction declarations for whatever a path left open (each alternative a possible input: a type error is a definite compile error for it); (G14) reserved set complete before naming; (G9) canEqual/canCopy/IsComparable tabulated; (G8) every recorded call becomes a call record. Since wave 6: a TypeString result (which registers an import) must reach the output (R3); the cast type that reads a private field of an imported struct is the field's own type or, exactly when that type was established unexported, its Underlying() (G33/R1); blank named results are part of the abstract input space; Generating is asked about the value that was registered; string cuts in helper names are rune-aligned (G15); canEqual asks for Equal methods before licensing == (G9). Engine G analyses the helper-inlined view of the driver (normalise.go; notes in this evidence say what was inlined). Wave 8: a leftover derived.gen.go must not decide whether the package loads (G22: the FindPackage hook hides the file from the directory listing go/build reads — dropping the name after Import is reported), every successful run passed Print or Delete (G10) for every initial package (G31: none skipped), the reload loop goes on while a pass generated something (G23 header) and variable cut offsets are bounded by the operand that is cut (G15).",
 		assumptions: commonAssumptions,
 		technique:   "custom static analysis: CFG dominance lints over the driver + abstract interpretation of plugins into residual programs checked with go/parser, go/format and go/types",
 	}
@@ -52,7 +52,7 @@ func init() {
 	}
 	checks["C03"] = &checkDef{
 		run:         func(c *Ctx) { premises(c); runR_C03(c) },
-		explanation: "Engine R on the compare plugin: every residual is (R8) evaluated abstractly over the finite orderings of the operand pairs it mentions (pair ∈ {<,=,>}, nil test ∈ {nil,non-nil}, length pair ∈ {<,=,>}): results stay in {-1,0,+1}, 0 exactly when every examined component is equal, a single differing component decides in its natural direction, nil orders first, and swapping the values negates the result on every row; (R6) helper/method calls and comparisons pair mirror components in (this, that) order; (R19) every field takes part; (R7) guards; nil-ness of every nilable operand is examined (agreement with Equal); no numeric conversion of operands; (R16) maps are traversed through sort(keys(m)) only. Not decided: transitivity across helper boundaries, user Compare methods, stdlib Compare functions. Since wave 6: the nil-blind library-leaf rule (bytes.Compare) is part of this check. Premises shared by every property about emitted code (Engine G, wave 8): a successful run has passed Print or Delete for every initial package (G10, G31: no package is skipped), and the plugins are ordered by the prefixes of this run (G8: every prefix is set before the plugins are constructed and sorted).",
+		explanation: "Engine R on the compare plugin: every residual is (R8) evaluated abstractly over the finite orderings of the operand pairs it mentions (pair ∈ {<,=,>}, nil test ∈ {nil,non-nil}, length pair ∈ {<,=,>}): results stay in {-1,0,+1}, 0 exactly when every examined component is equal, a single differing component decides in its natural direction, nil orders first, and swapping the values negates the result on every row; (R6) helper/method calls and comparisons pair mirror components in (this, that) order; (R19) every field takes part; (R7) guards; nil-ness of every nilable operand is examined (agreement with Equal); no numeric conversion of operands; (R16) maps are traversed through sort(keys(m)) only. Not decided: transitivity across helper boundaries, user Compare methods, stdlib Compare functions. Since wave 6: the nil-blind library-leaf rule (bytes.Compare) is part of this check. Premises shared by every property about emitted code (Engine G, wave 8): a successful run has passed Print or Delete for every initial package (G10, G31: no package is skipped), and the plugins are ordered by the prefixes of this run (G8: every prefix is set before the plugins are constructed and sorted). Wave 8: an ordering or equality operator between mirror components is emitted only where the path established that the component's type is not a named type with its own Compare method (R-method for compare).",
 		assumptions: append([]string{"a compare helper / Compare method / strings.Compare / bytes.Compare returns the sign of the ordering of its two operands"}, commonAssumptions...),
 		technique:   "abstract interpretation of the compare generator into residual programs + abstract evaluation of each residual over a finite ordering table; AST/guard-set lints",
 	}
@@ -64,13 +64,13 @@ func init() {
 	}
 	checks["C05"] = &checkDef{
 		run:         func(c *Ctx) { premises(c); runR_C05(c) },
-		explanation: "Engine R on deepcopy and clone: (R10) only dst-rooted locations are written; (R11 copy-taint) a src-rooted value reaches dst by plain assignment / *dst = *src / copy() only on paths where the generator established canCopy for exactly that component's type (resolved through the symbolic type graph), helper and method calls are (dst, src) / src.DeepCopy(dst) on mirror components; every nilable component is set to nil exactly under src==nil and freshly allocated (new/make) under src!=nil before it is filled; the destination-slice reuse code is evaluated over {dst nil?, len(dst)?len(src), cap(dst)>=len(src)}: every consistent row must end non-nil with equal length and no reslice beyond capacity; (R19) every field is copied; clone = nil-propagation + fresh allocation + deepcopy(dst, src). G9 tabulates canCopy. Not decided: value equality of the copy, user DeepCopy methods, aliasing inside the prior destination. Premises shared by every property about emitted code (Engine G, wave 8): a successful run has passed Print or Delete for every initial package (G10, G31: no package is skipped), and the plugins are ordered by the prefixes of this run (G8: every prefix is set before the plugins are constructed and sorted).",
+		explanation: "Engine R on deepcopy and clone: (R10) only dst-rooted locations are written; (R11 copy-taint) a src-rooted value reaches dst by plain assignment / *dst = *src / copy() only on paths where the generator established canCopy for exactly that component's type (resolved through the symbolic type graph), helper and method calls are (dst, src) / src.DeepCopy(dst) on mirror components; every nilable component is set to nil exactly under src==nil and freshly allocated (new/make) under src!=nil before it is filled; the destination-slice reuse code is evaluated over {dst nil?, len(dst)?len(src), cap(dst)>=len(src)}: every consistent row must end non-nil with equal length and no reslice beyond capacity; (R19) every field is copied; clone = nil-propagation + fresh allocation + deepcopy(dst, src). G9 tabulates canCopy. Not decided: value equality of the copy, user DeepCopy methods, aliasing inside the prior destination. Premises shared by every property about emitted code (Engine G, wave 8): a successful run has passed Print or Delete for every initial package (G10, G31: no package is skipped), and the plugins are ordered by the prefixes of this run (G8: every prefix is set before the plugins are constructed and sorted). Wave 8: no return/break/goto inside an element loop (R11 exit-inside-element-loop).",
 		assumptions: commonAssumptions,
 		technique:   "abstract interpretation of the deepcopy/clone generators into residual programs + taint/guard-set analyses and a finite resize-state table; predicate tabulation",
 	}
 	checks["C13"] = &checkDef{
 		run:         func(c *Ctx) { premises(c); runR_C13(c) },
-		explanation: "Engine R on sort/keys/min/max: sort sorts its own argument in place with package sort and returns it; sort.Strings/Ints/Float64s only on paths that established the exact basic type; sort.Slice's less function is tabulated over element-pair orderings (irreflexive, asymmetric, ascending; indexes only the sorted slice; mirror operands in (i, j) order). keys ranges over the map, appends every range key exactly once unconditionally and returns that slice. min/max: two-value forms tabulated (returns the preceding / following argument); list forms: early return of the default only for an empty list, accumulator seeded and replaced only by list elements, replaced exactly when the new element precedes (min) / follows (max) it and by that very element; min and max residuals mirror each other (R9). R5b: `<`/`>` between values only after an ordered basic kind was established. Not decided: that sort.Slice sorts (stdlib), permutation-ness beyond in-place stdlib sort. Added: two-value form of min/max only under types.Identical. Premises shared by every property about emitted code (Engine G, wave 8): a successful run has passed Print or Delete for every initial package (G10, G31: no package is skipped), and the plugins are ordered by the prefixes of this run (G8: every prefix is set before the plugins are constructed and sorted).",
+		explanation: "Engine R on sort/keys/min/max: sort sorts its own argument in place with package sort and returns it; sort.Strings/Ints/Float64s only on paths that established the exact basic type; sort.Slice's less function is tabulated over element-pair orderings (irreflexive, asymmetric, ascending; indexes only the sorted slice; mirror operands in (i, j) order). keys ranges over the map, appends every range key exactly once unconditionally and returns that slice. min/max: two-value forms tabulated (returns the preceding / following argument); list forms: early return of the default only for an empty list, accumulator seeded and replaced only by list elements, replaced exactly when the new element precedes (min) / follows (max) it and by that very element; min and max residuals mirror each other (R9). R5b: `<`/`>` between values only after an ordered basic kind was established. Not decided: that sort.Slice sorts (stdlib), permutation-ness beyond in-place stdlib sort. Added: two-value form of min/max only under types.Identical. Premises shared by every property about emitted code (Engine G, wave 8): a successful run has passed Print or Delete for every initial package (G10, G31: no package is skipped), and the plugins are ordered by the prefixes of this run (G8: every prefix is set before the plugins are constructed and sorted). Wave 8: the compare plugin's own rules (R6/R7/R8/R16/R19/R-method) are part of this check: Sort/Min/Max are specified under derived Compare, which must be a total order.",
 		assumptions: append([]string{"a compare helper returns the sign of the ordering of its operands; package sort sorts"}, commonAssumptions...),
 		technique:   "abstract interpretation into residual programs + ordering-table evaluation of less/min/max decisions + structural loop rules",
 	}
@@ -82,13 +82,13 @@ func init() {
 	}
 	checks["C15"] = &checkDef{
 		run:         func(c *Ctx) { premises(c); runR_C15(c) },
-		explanation: "Engine R on curry/uncurry/flip/apply/tuple for every naming of the parameters (named, blank, unnamed) and 0..2 results at arities up to the bound: (R14) the innermost closure references the original function exactly once, calls it with its own parameter names in order (and, for uncurry, the returned function with its parameters), returns the results unchanged; the closure binders are exactly the parameters, each once, in the transformed order (curry: first | rest; flip: first two swapped; apply: last pre-bound; uncurry: outer ++ inner); tuple returns its arguments in order; hygiene: a template-literal identifier referenced under user-named binders is a capture hazard; (R4) each residual is type-checked with pairwise distinct opaque parameter types — since the generators never inspect those types, this decides positional correctness for all types; (R1) blank/unnamed parameters must still give parsable output. Not decided: runtime behaviour of f, variadic signatures. Since wave 6: named results may be blank in the abstract input space (a blank result must not be renamed into a clash). Premises shared by every property about emitted code (Engine G, wave 8): a successful run has passed Print or Delete for every initial package (G10, G31: no package is skipped), and the plugins are ordered by the prefixes of this run (G8: every prefix is set before the plugins are constructed and sorted).",
+		explanation: "Engine R on curry/uncurry/flip/apply/tuple for every naming of the parameters (named, blank, unnamed) and 0..2 results at arities up to the bound: (R14) the innermost closure references the original function exactly once, calls it with its own parameter names in order (and, for uncurry, the returned function with its parameters), returns the results unchanged; the closure binders are exactly the parameters, each once, in the transformed order (curry: first | rest; flip: first two swapped; apply: last pre-bound; uncurry: outer ++ inner); tuple returns its arguments in order; hygiene: a template-literal identifier referenced under user-named binders is a capture hazard; (R4) each residual is type-checked with pairwise distinct opaque parameter types — since the generators never inspect those types, this decides positional correctness for all types; (R1) blank/unnamed parameters must still give parsable output. Not decided: runtime behaviour of f, variadic signatures. Since wave 6: named results may be blank in the abstract input space (a blank result must not be renamed into a clash). Premises shared by every property about emitted code (Engine G, wave 8): a successful run has passed Print or Delete for every initial package (G10, G31: no package is skipped), and the plugins are ordered by the prefixes of this run (G8: every prefix is set before the plugins are constructed and sorted). Wave 8: a go/types value printed with its own String method into emitted code (instead of through TypeString) is reported (R1 raw-type-text).",
 		assumptions: commonAssumptions,
 		technique:   "abstract interpretation into residual programs + structural plumbing rules + go/types check of residuals under distinct opaque types (parametricity)",
 	}
 	checks["C16"] = &checkDef{
 		run:         func(c *Ctx) { premises(c); runR_C16(c) },
-		explanation: "Engine R on compose, the error forms of fmap and join, traverse and toerror, for 2..3 stages x 0..2 intermediate/final results (arity bounds) and every zero-value kind: (R13) every stage function is called exactly once, in straight-line code, in data-flow order, with exactly the values the previous step produced, in order; each failing-capable stage's error variable is tested immediately after the call and the failure branch returns that very variable with only zero literals next to it; a failing-capable stage is never tail-called or called inside a function literal; the success path returns the last stage's values and nil. traverse: f once per element on the range element, result stored at the element's index, `return nil, err` immediately after the call. toerror: f once with the closure's parameters in order, other results passed through unchanged, nil only under success and the supplied error only under ¬success. derive.Zero is tabulated over go/types kinds (nil only for nilable underlying kinds). Not decided: identity of error objects at run time beyond variable identity, user function behaviour. Added: nil error only where the supplied error was established nil. Premises shared by every property about emitted code (Engine G, wave 8): a successful run has passed Print or Delete for every initial package (G10, G31: no package is skipped), and the plugins are ordered by the prefixes of this run (G8: every prefix is set before the plugins are constructed and sorted).",
+		explanation: "Engine R on compose, the error forms of fmap and join, traverse and toerror, for 2..3 stages x 0..2 intermediate/final results (arity bounds) and every zero-value kind: (R13) every stage function is called exactly once, in straight-line code, in data-flow order, with exactly the values the previous step produced, in order; each failing-capable stage's error variable is tested immediately after the call and the failure branch returns that very variable with only zero literals next to it; a failing-capable stage is never tail-called or called inside a function literal; the success path returns the last stage's values and nil. traverse: f once per element on the range element, result stored at the element's index, `return nil, err` immediately after the call. toerror: f once with the closure's parameters in order, other results passed through unchanged, nil only under success and the supplied error only under ¬success. derive.Zero is tabulated over go/types kinds (nil only for nilable underlying kinds). Not decided: identity of error objects at run time beyond variable identity, user function behaviour. Added: nil error only where the supplied error was established nil. Premises shared by every property about emitted code (Engine G, wave 8): a successful run has passed Print or Delete for every initial package (G10, G31: no package is skipped), and the plugins are ordered by the prefixes of this run (G8: every prefix is set before the plugins are constructed and sorted). Wave 8: the chain is left only where a stage has failed — any other conditional exit while stages are pending is reported (R13 early-exit); traverse hands every element to f (nothing leaves the iteration before the call: R13 element-skipped).",
 		assumptions: commonAssumptions,
 		technique:   "abstract interpretation into residual programs + straight-line chain analysis and guard-set rules on the residual ASTs; tabulation of derive.Zero",
 	}
@@ -126,7 +126,7 @@ func init() {
 			g28BypassQualifier(c.Repo, c.Rep)
 			runR_C06(c)
 		},
-		explanation: "Engine R on gostring — second-stage well-formedness: for every residual the fmt.Fprintf statements are walked along every structured path (each if both ways, each loop 0/1 times; thorough 0/1/2), their format strings concatenated with verbs replaced by placeholders (%#v a value, %d the iteration number, %s a nested derived GoString call); on every path the printed text must parse as an immediately invoked `func() T { … }()`, use only identifiers it declared before, and end in a return; type names in printed text come from the package-qualifying (bypass) printer while the function's own signature uses the ordinary one; a type printed under a pointer constructor (*T, new(T), &T{}) is the component's declared type, never its Underlying(); %s operands are nested gostring calls and values use %#v; a nil pointer/slice/map is printed as `return nil`; every field of an inlined struct is printed (R19). Not decided: %#v's escaping (stdlib), value round-trip, unexported fields. Added: %#v on a composite only when every component was established basic (also on duplicate-text runs). Since wave 6: every literal the emitted code returns for a typed value parses as an expression of that type's shape (a bare nil is not); the qualifier of an imported type is the package's name (G28); field rendering consults Embedded() or delegates to go/types (G25). Premises shared by every property about emitted code (Engine G, wave 8): a successful run has passed Print or Delete for every initial package (G10, G31: no package is skipped), and the plugins are ordered by the prefixes of this run (G8: every prefix is set before the plugins are constructed and sorted).",
+		explanation: "Engine R on gostring — second-stage well-formedness: for every residual the fmt.Fprintf statements are walked along every structured path (each if both ways, each loop 0/1 times; thorough 0/1/2), their format strings concatenated with verbs replaced by placeholders (%#v a value, %d the iteration number, %s a nested derived GoString call); on every path the printed text must parse as an immediately invoked `func() T { … }()`, use only identifiers it declared before, and end in a return; type names in printed text come from the package-qualifying (bypass) printer while the function's own signature uses the ordinary one; a type printed under a pointer constructor (*T, new(T), &T{}) is the component's declared type, never its Underlying(); %s operands are nested gostring calls and values use %#v; a nil pointer/slice/map is printed as `return nil`; every field of an inlined struct is printed (R19). Not decided: %#v's escaping (stdlib), value round-trip, unexported fields. Added: %#v on a composite only when every component was established basic (also on duplicate-text runs). Since wave 6: every literal the emitted code returns for a typed value parses as an expression of that type's shape (a bare nil is not); the qualifier of an imported type is the package's name (G28); field rendering consults Embedded() or delegates to go/types (G25). Premises shared by every property about emitted code (Engine G, wave 8): a successful run has passed Print or Delete for every initial package (G10, G31: no package is skipped), and the plugins are ordered by the prefixes of this run (G8: every prefix is set before the plugins are constructed and sorted). Wave 8: the target of a pointer to a map or slice starts out nil (new(T)); `&T{}` for such a T is reported (R-stage2 nonnil-target). Indexed verbs (%[n]v) are read.",
 		assumptions: commonAssumptions,
 		technique:   "abstract interpretation into residual programs + path-wise assembly and go/parser analysis of the text the residual prints (two-stage well-formedness)",
 	}
@@ -151,7 +151,7 @@ func init() {
 			c.Rep.floor("G4", 10)
 			c.Rep.floor("G10", 9)
 		},
-		explanation: "Decides the mechanisms C07's anchors name, each a necessary condition: the derived file is written with a truncating os.Create on a path that comes only from (*pkg).Filename(), the same constant is what discovery excludes (G4); every successful return of generatePackage has passed through Print (HasContent) or Delete (otherwise) (G10 must-pass-through on the CFG); the loader tolerates type errors and an unparsable derived file; files named derivedFilename are excluded from call discovery, names resolved into it are re-queued and never reserved; no user file is skipped when listing package files (G10). (G22) the previous output is not an input of the first pass: every loader.Config installs a FindPackage hook that takes the package from (*build.Context).Import and, on every CFG path to a return on which the package is non-nil and marked stale, has replaced GoFiles by a filter of GoFiles by derivedFilename (the filter is evaluated abstractly on literal lists: exactly the other names, in order); (*plugins).Load marks every path it loads as stale; a load that marks nothing comes after this run's Print; the hook drops derivedFilename from InvalidGoFiles and clears go/build's error only under a condition on what remains of InvalidGoFiles. G17 (argument types cannot come from the previous derived.gen.go, nor from the callee's declaration) and G19 (a truncated remnant is never read, or the file is replaced atomically) are discharged through G22; on the tree before fix a84a5a8 both fail. G18: one call list in visit order. Not decided: byte identity across histories beyond these necessary conditions; derived files of imported (non-initial) packages. Added: reserved names never come from the whole type-checked package (G14); the finder continues into a call's arguments (G14); HasUndefined examines whole types (G12); loads include test files, tolerate errors, nobody reads a package's Errors list (G16). Since wave 6: the reload loop breaks exactly when a pass left the set of undefined calls of this package unchanged (G23); the initial packages are generated in load order (G31); the directory of the derived file is known before Print/Delete (G26). Engine G analyses the helper-inlined view of the driver (normalise.go; notes in this evidence say what was inlined).",
+		explanation: "Decides the mechanisms C07's anchors name, each a necessary condition: the derived file is written with a truncating os.Create on a path that comes only from (*pkg).Filename(), the same constant is what discovery excludes (G4); every successful return of generatePackage has passed through Print (HasContent) or Delete (otherwise) (G10 must-pass-through on the CFG); the loader tolerates type errors and an unparsable derived file; files named derivedFilename are excluded from call discovery, names resolved into it are re-queued and never reserved; no user file is skipped when listing package files (G10). (G22) the previous output is not an input of the first pass: every loader.Config installs a FindPackage hook that takes the package from (*build.Context).Import and, on every CFG path to a return on which the package is non-nil and marked stale, has replaced GoFiles by a filter of GoFiles by derivedFilename (the filter is evaluated abstractly on literal lists: exactly the other names, in order); (*plugins).Load marks every path it loads as stale; a load that marks nothing comes after this run's Print; the hook drops derivedFilename from InvalidGoFiles and clears go/build's error only under a condition on what remains of InvalidGoFiles. G17 (argument types cannot come from the previous derived.gen.go, nor from the callee's declaration) and G19 (a truncated remnant is never read, or the file is replaced atomically) are discharged through G22; on the tree before fix a84a5a8 both fail. G18: one call list in visit order. Not decided: byte identity across histories beyond these necessary conditions; derived files of imported (non-initial) packages. Added: reserved names never come from the whole type-checked package (G14); the finder continues into a call's arguments (G14); HasUndefined examines whole types (G12); loads include test files, tolerate errors, nobody reads a package's Errors list (G16). Since wave 6: the reload loop breaks exactly when a pass left the set of undefined calls of this package unchanged (G23); the initial packages are generated in load order (G31); the directory of the derived file is known before Print/Delete (G26). Engine G analyses the helper-inlined view of the driver (normalise.go; notes in this evidence say what was inlined). Wave 8: every initial package reaches generatePackage on every path round the loop of (*program).Generate (G31 no package skipped); the filter-after-import form of the FindPackage hook is reported (G22); the reload loop's header is `this pass generated something` (G23).",
 		assumptions: commonAssumptions,
 		technique:   "custom static analysis: who-may-call table, path provenance, go/cfg must-pass-through and exclusion (reachability/dominance) rules",
 	}
@@ -167,7 +167,7 @@ func init() {
 			g14ReservedProvenance(c)
 			c.Rep.floor("G6", 8)
 		},
-		explanation: "G6: every range over a Go map in main/derive/plugin/* is classified (insert-only / constant reduction / append-then-sort are order-insensitive; first-match returns, emission or unsorted appends are violations); no package-level variable is written outside main/init and no package-level reference value escapes into per-package state; no clock/random/environment/goroutine input; printers, qualifiers, type tables and generators are constructed in newPackage only. Not decided: ordering inside go/loader and gotool (third-party), path-spelling independence, timing. Added: the callees of every order-insensitive map loop are effect-free (whole-repository may-have-effect analysis over static, interface and function-value calls; one exempted edge with its argument); nothing is ordered by token.Pos (expected count 0, with a built-in positive example); reserved names do not depend on the previous output. Added: G10 (every user file listed; print-or-delete on (*pkg).Filename()). Since wave 6: Print skips the write only after bytes.Equal of the whole old and new content (G4); nameOf's candidates are sorted and vetted (G6/G11); the progress test of the pass loop depends on the current package only (G23); the directory is known before Print/Delete (G26). Engine G analyses the helper-inlined view of the driver (normalise.go; notes in this evidence say what was inlined).",
+		explanation: "G6: every range over a Go map in main/derive/plugin/* is classified (insert-only / constant reduction / append-then-sort are order-insensitive; first-match returns, emission or unsorted appends are violations); no package-level variable is written outside main/init and no package-level reference value escapes into per-package state; no clock/random/environment/goroutine input; printers, qualifiers, type tables and generators are constructed in newPackage only. Not decided: ordering inside go/loader and gotool (third-party), path-spelling independence, timing. Added: the callees of every order-insensitive map loop are effect-free (whole-repository may-have-effect analysis over static, interface and function-value calls; one exempted edge with its argument); nothing is ordered by token.Pos (expected count 0, with a built-in positive example); reserved names do not depend on the previous output. Added: G10 (every user file listed; print-or-delete on (*pkg).Filename()). Since wave 6: Print skips the write only after bytes.Equal of the whole old and new content (G4); nameOf's candidates are sorted and vetted (G6/G11); the progress test of the pass loop depends on the current package only (G23); the directory is known before Print/Delete (G26). Engine G analyses the helper-inlined view of the driver (normalise.go; notes in this evidence say what was inlined). Wave 8: a list filled in map order is order-independent only after a sort that is total on the elements themselves (library sort of the element type, or a comparator that ends in the natural comparison of the two elements): sorting by a computed key is reported (G6).",
 		assumptions: commonAssumptions,
 		technique:   "custom static analysis: typed-AST classification of map iterations, global-state and nondeterministic-input lint, who-may-call for constructors",
 	}
@@ -188,7 +188,7 @@ func init() {
 			runG9(c, "equal.canEqual", "deepcopy.canCopy", "contains.canEqual", "derive.IsComparable")
 			runR_C09(c)
 		},
-		explanation: "G1: every error-returning call in main/derive/plugin/* (412 on the pinned tree) is returned, or tested with the non-nil branch ending in a non-nil error return / fatal exit; drops, blank assignments, swallows (`if err != nil { return nil }`) and error branches that stay inside a work loop are violations. G12: (*call).HasUndefined is tabulated over go/types kinds — on every path that answers `fully defined` it examined the whole type (String() rendering or every constituent), so unresolved argument types are always deferred. Engine R: no abstract run of any plugin (including runs Add rejects) hits a definite generator panic (index out of the established length, unchecked type assertion on an unrefined kind, Out underflow, explicit panic); no accepted run emits unparsable text; unsupported constituents (chan/func/interface) at every position of the structural plugins end in generator-error runs; operators are emitted only for kinds that support them. Not decided: termination of the reload loop, panics inside third-party code, broken user files. Added: (G15) constant offsets in the driver lie within an established length; (G14) Obj().Pkg() is nil-checked before use (IsExternal only on struct-kinded types, enforced by the interpreter); (G16) the finder records a call only after asserting call.Fun itself to be an identifier; recursion in a generator makes progress (re-entry with the same type arguments = definite non-termination); canEqual/canCopy/IsComparable tabulated incl. blank fields; (R4) every accepted run type-checks, as in C01. Fourth session: R4 alternatives as in C01; (G23) generatePackage returns nil only where no call is left undefined; (G24) nil first argument rejected in (*pkg).Add. Since wave 6: the progress measure of the pass loop has one entry per undefined call (G27) and the loop's exits are decided (G23); a package without files is skipped before any position lookup (G26); R-generating and G15 as in C01; contains.canEqual asks for Equal methods. Engine G analyses the helper-inlined view of the driver (normalise.go; notes in this evidence say what was inlined).",
+		explanation: "G1: every error-returning call in main/derive/plugin/* (412 on the pinned tree) is returned, or tested with the non-nil branch ending in a non-nil error return / fatal exit; drops, blank assignments, swallows (`if err != nil { return nil }`) and error branches that stay inside a work loop are violations. G12: (*call).HasUndefined is tabulated over go/types kinds — on every path that answers `fully defined` it examined the whole type (String() rendering or every constituent), so unresolved argument types are always deferred. Engine R: no abstract run of any plugin (including runs Add rejects) hits a definite generator panic (index out of the established length, unchecked type assertion on an unrefined kind, Out underflow, explicit panic); no accepted run emits unparsable text; unsupported constituents (chan/func/interface) at every position of the structural plugins end in generator-error runs; operators are emitted only for kinds that support them. Not decided: termination of the reload loop, panics inside third-party code, broken user files. Added: (G15) constant offsets in the driver lie within an established length; (G14) Obj().Pkg() is nil-checked before use (IsExternal only on struct-kinded types, enforced by the interpreter); (G16) the finder records a call only after asserting call.Fun itself to be an identifier; recursion in a generator makes progress (re-entry with the same type arguments = definite non-termination); canEqual/canCopy/IsComparable tabulated incl. blank fields; (R4) every accepted run type-checks, as in C01. Fourth session: R4 alternatives as in C01; (G23) generatePackage returns nil only where no call is left undefined; (G24) nil first argument rejected in (*pkg).Add. Since wave 6: the progress measure of the pass loop has one entry per undefined call (G27) and the loop's exits are decided (G23); a package without files is skipped before any position lookup (G26); R-generating and G15 as in C01; contains.canEqual asks for Equal methods. Engine G analyses the helper-inlined view of the driver (normalise.go; notes in this evidence say what was inlined). Wave 8: variable cut offsets x[:v] are bounded by a test against len of the very operand that is cut (G15); G22 and G31 as in C01/C07; G23 header condition.",
 		assumptions: commonAssumptions,
 		technique:   "custom static analysis: CFG-based error-flow lint + abstract interpretation of plugin Add/Generate with definite-panic detection",
 	}
@@ -230,7 +230,7 @@ func init() {
 			runG5(c.Repo, c.Rep)
 			c.Rep.floor("G7", 40)
 		},
-		explanation: "G7: SetFuncName's structured control flow is enumerated path by path over the atoms {name-of-types hit, hit==requested, requested bound, bound types eq, dedup, autoname}; each of the 36 consistent states must yield exactly the outcome the property prescribes (requested / existing only with -dedup / fresh only with -autoname / error / register in both tables). newName returns a candidate that was tested after its last update against both funcToTyps and reserved, built from the current prefix; GetFuncName registers exactly the name it returns; the reserved set is complete before any table uses it; nameOf answers only under eq (G11). Not decided: eq uses assignability rather than identity (outside the property's pairwise-non-assignable quantifier); type-correctness after renaming (C01). Added: (G16) eq evaluated abstractly on lists of lengths (1,2),(2,1),(0,1),(1,0),(2,3),(1,1),(2,2): false for different lengths, true when every pairwise test succeeds; (G14) the name returned by Add reaches the call identifier at every call site; (G4/G5) the rewrite truncates and prints the file's own tree; reserved names come from user files only. Added: every recorded call becomes its own record (G8), reserved set complete before naming (G14), argument types never from the callee's declaration (G17 clause 2). Since wave 6: eq compares types.Default'ed types (G29); every name declared at package level outside the derived file is reserved, called or not (G32); newName returns the very name it tested and cuts type names between runes (G7/G15). Engine G analyses the helper-inlined view of the driver (normalise.go; notes in this evidence say what was inlined).",
+		explanation: "G7: SetFuncName's structured control flow is enumerated path by path over the atoms {name-of-types hit, hit==requested, requested bound, bound types eq, dedup, autoname}; each of the 36 consistent states must yield exactly the outcome the property prescribes (requested / existing only with -dedup / fresh only with -autoname / error / register in both tables). newName returns a candidate that was tested after its last update against both funcToTyps and reserved, built from the current prefix; GetFuncName registers exactly the name it returns; the reserved set is complete before any table uses it; nameOf answers only under eq (G11). Not decided: eq uses assignability rather than identity (outside the property's pairwise-non-assignable quantifier); type-correctness after renaming (C01). Added: (G16) eq evaluated abstractly on lists of lengths (1,2),(2,1),(0,1),(1,0),(2,3),(1,1),(2,2): false for different lengths, true when every pairwise test succeeds; (G14) the name returned by Add reaches the call identifier at every call site; (G4/G5) the rewrite truncates and prints the file's own tree; reserved names come from user files only. Added: every recorded call becomes its own record (G8), reserved set complete before naming (G14), argument types never from the callee's declaration (G17 clause 2). Since wave 6: eq compares types.Default'ed types (G29); every name declared at package level outside the derived file is reserved, called or not (G32); newName returns the very name it tested and cuts type names between runes (G7/G15). Engine G analyses the helper-inlined view of the driver (normalise.go; notes in this evidence say what was inlined). Wave 8: G15 variable offsets in newName. After fix (see known_findings): with -autoname a call whose requested name is bound to other types and whose own types are bound under another name is renamed to that name (state H,¬S,F,¬E,autoname of the table).",
 		assumptions: commonAssumptions,
 		technique:   "custom static analysis: decision-table extraction by path enumeration over the typed AST, loop-exit and dominance rules",
 	}
@@ -245,7 +245,7 @@ func init() {
 			c.Rep.floor("G8", 150)
 			runR_C12(c)
 		},
-		explanation: "G8: 33 NewPlugin registrations with unique names, unique default prefixes each starting with exactly one \"derive\" (so -prefix substitution is a pure renaming), all listed once in main, all deps keys bound; SetPrefix only from main before NewPlugins; the prefix is strings.Replace(default,\"derive\",*prefix,1) or the verbatim override; NewPlugins sorts before storing; the sort comparator is tabulated over the finite orderings of (length, string) and must be longest-first, irreflexive, asymmetric, total on equal lengths, and may index only the slice being sorted; both dispatch loops iterate the sorted slice and leave at the first match. Engine R: no residual contains a literal identifier starting with a registered default prefix; emitted function and helper names are NAME/FUNC holes (equivariance under the prefix map). Not decided: textual identity of two runs. Added: the -prefix substitution dominates SetPrefix. Since wave 6: the plugin list is never reordered after construction (G8); the name tested free is the name returned (G7); every declared name is reserved (G32). Engine G analyses the helper-inlined view of the driver (normalise.go; notes in this evidence say what was inlined).",
+		explanation: "G8: 33 NewPlugin registrations with unique names, unique default prefixes each starting with exactly one \"derive\" (so -prefix substitution is a pure renaming), all listed once in main, all deps keys bound; SetPrefix only from main before NewPlugins; the prefix is strings.Replace(default,\"derive\",*prefix,1) or the verbatim override; NewPlugins sorts before storing; the sort comparator is tabulated over the finite orderings of (length, string) and must be longest-first, irreflexive, asymmetric, total on equal lengths, and may index only the slice being sorted; both dispatch loops iterate the sorted slice and leave at the first match. Engine R: no residual contains a literal identifier starting with a registered default prefix; emitted function and helper names are NAME/FUNC holes (equivariance under the prefix map). Not decided: textual identity of two runs. Added: the -prefix substitution dominates SetPrefix. Since wave 6: the plugin list is never reordered after construction (G8); the name tested free is the name returned (G7); every declared name is reserved (G32). Engine G analyses the helper-inlined view of the driver (normalise.go; notes in this evidence say what was inlined). Wave 8: no condition that reads a prefix value (the -prefix flag, what reaches SetPrefix, GetPrefix()/Prefix(), a field called prefix) outside the HasPrefix dispatch and the ordering of two prefixes may end the run (G8 prefix-opaque, expected count zero with a built-in positive example).",
 		assumptions: commonAssumptions,
 		technique:   "custom static analysis: registry extraction, abstract evaluation of the comparator over a finite ordering table, CFG first-match rule, residual scope lint",
 	}
